@@ -62,6 +62,8 @@ package values
 // the contents of compared slices are assumed unchanged. User ToLiquid methods are
 // assumed deterministic and effect-free (interface values.drop).
 
+//@ globalinv values.float64Type: self == tid(float64)
+
 //@ interface values.drop
 //@ method ToLiquid pure
 
